@@ -82,6 +82,16 @@ class Bus:
         self.max_frames = 150000    # a case that puts more on the bus is a runaway of the code under test
         self.runaway = None
         self.delivered = []         # (t, node name, frame idx) for every delivery (who has seen what, when)
+        # what the interface writes into can.Message.timestamp: the epoch clock, nothing (0.0, the default of can.Message and of interfaces
+        # without time stamping), or seconds since start-up -- the stack must not depend on it
+        self.ts_mode = 'epoch'
+
+    def timestamp(self):
+        if self.ts_mode == 'zero':
+            return 0.0
+        if self.ts_mode == 'relative':
+            return self.sim.now
+        return self.sim.EPOCH + self.sim.now
 
     def add(self, node):
         self.nodes.append(node)
@@ -194,6 +204,10 @@ class StackNode:
         self.rx_state = None
         self.rx_busy = False
         self.reentrant_depth = 0
+        self.send_calls = 0
+        self.fail_sends = set()     # 1-based numbers of the send calls the backend refuses with can.CanError
+        self.send_failures = 0
+        self.fail_pred = None       # or a predicate(can_id, data) -> True: refuse this frame
         self.in_handler = 0         # > 0 while the driver executes a handler of this stack
         self.notify_exc = collections.Counter()    # exceptions raised by ecu.notify (contained by the listener)
         self.notify_exc_samples = []
@@ -243,6 +257,11 @@ class StackNode:
 
     # send backend handed to the ECU: same can.Message construction as the real send_message
     def _send(self, can_id, extended_id, data, fd_format=False):
+        self.send_calls += 1
+        if self.send_calls in self.fail_sends or (self.fail_pred is not None and self.fail_pred(can_id, data)):
+            # fault injection: the driver refuses the frame (nothing reaches the bus)
+            self.send_failures += 1
+            raise can.CanError('injected: the interface refused frame #%d' % self.send_calls)
         msg = can.Message(is_extended_id=extended_id, arbitration_id=can_id, data=data,
                           is_fd=fd_format, bitrate_switch=fd_format)
         self.bus.transmit(self, msg.arbitration_id, bytes(msg.data), fd=fd_format, ext=bool(extended_id))
@@ -285,7 +304,7 @@ class StackNode:
         self.rx_frames += 1
         m = can.Message(is_extended_id=fr.ext, arbitration_id=fr.can_id, data=bytearray(fr.data),
                         is_fd=fr.fd, is_remote_frame=fr.remote, is_error_frame=fr.error,
-                        timestamp=self.bus.sim.EPOCH + self.bus.sim.now, check=False)
+                        timestamp=self.bus.timestamp(), check=False)
         self.listener.on_message_received(m)
 
     # --- observation helpers (private names read tolerantly) -----------------------------
